@@ -6,6 +6,7 @@ Open Scope string_scope.
 Open Scope list_scope.
 
 (* ------------------------------------------------------------------ names *)
+Arguments vname : simpl never.
 Lemma vname_inj : forall a b, vname a = vname b -> a = b.
 Proof.
   intros a b H. unfold vname in H. cbn in H. injection H as H.
@@ -47,6 +48,15 @@ Proof.
   intro n. unfold names. apply FinFun.Injective_map_NoDup.
   - intros a b H. apply vname_inj. exact H.
   - apply seq_NoDup.
+Qed.
+
+Lemma NoDup_snoc : forall (l : list string) x, ~ In x l -> NoDup l -> NoDup (l ++ [x]).
+Proof.
+  induction l as [| y l IH]; intros x Hn ND; cbn.
+  - constructor; [intros [] | constructor].
+  - inversion ND as [| ? ? Hy ND']; subst. constructor.
+    + rewrite in_app_iff. intros [H | [H | []]]; [exact (Hy H) | subst; apply Hn; left; reflexivity].
+    + apply IH; [intro H; apply Hn; right; exact H | exact ND'].
 Qed.
 
 (* ------------------------------------------------------------------ find_idx *)
@@ -91,13 +101,13 @@ Proof.
   intros T rho e. induction e as [z | f r | s | op a IHa b IHb | op a IHa | op adv a IHa |]; intros vr i vr' H; cbn in H.
   - injection H as <- <-. repeat split; [apply prefix_refl | tauto].
   - injection H as <- <-. repeat split; [apply prefix_refl | tauto].
-  - destruct (rho s) as [v |]; [| discriminate]. destruct (admit_compile v); [| discriminate].
+  - destruct (rho s) as [v |]; [| discriminate]. destruct (admit_compile T v); [| discriminate].
     destruct (find_idx s vr) as [k |] eqn:F; injection H as <- <-.
     + repeat split; [apply prefix_refl | tauto |]. cbn. rewrite mem_names.
       apply find_idx_lt in F. apply Nat.ltb_lt in F. rewrite F. reflexivity.
     + repeat split.
       * exists [s]. reflexivity.
-      * intro ND. apply NoDup_app_comm_simple. constructor; [| exact ND]. apply find_idx_none. exact F.
+      * intro ND. apply NoDup_snoc; [apply find_idx_none; exact F | exact ND].
       * cbn. rewrite mem_names, Nat.ltb_irrefl. rewrite app_length. cbn. rewrite Nat.add_1_r, names_S. reflexivity.
   - destruct (ast_to_ir T rho a vr) as [[l vr1] |] eqn:A; [| discriminate].
     destruct (ast_to_ir T rho b vr1) as [[r vr2] |] eqn:B; [| discriminate].
@@ -117,4 +127,582 @@ Proof.
     + injection H as <- <-. repeat split; auto.
     + destruct (String.eqb adv "\"); [| discriminate]. injection H as <- <-. repeat split; auto.
   - discriminate.
+Qed.
+
+(* variables occurring in an IR tree *)
+Fixpoint ir_vars (i : ir) : list string :=
+  match i with
+  | IVar n => [n]
+  | IBin _ l r | ICmp _ l r => ir_vars l ++ ir_vars r
+  | INeg c => ir_vars c
+  | IRed _ a | IScan _ a => ir_vars a
+  | _ => []
+  end.
+
+Lemma walk_incl : forall i acc, incl acc (walk acc i) /\ incl (ir_vars i) (walk acc i).
+Proof.
+  induction i as [z | f r | n | op l IHl r IHr | op l IHl r IHr | c IHc | op a IHa | op a IHa]; intro acc; cbn;
+    try (split; [apply incl_refl | intros x []]); try (apply IHc); try (apply IHa).
+  - destruct (mem n acc) eqn:M.
+    + split; [apply incl_refl |]. intros x [<- | []]. apply mem_true_iff. exact M.
+    + split; [apply incl_appl, incl_refl |]. intros x [<- | []]. apply in_app_iff. right. left. reflexivity.
+  - destruct (IHl acc) as [A1 A2]. destruct (IHr (walk acc l)) as [B1 B2]. split.
+    + eapply incl_tran; eauto.
+    + apply incl_app; [eapply incl_tran; eauto | exact B2].
+  - destruct (IHl acc) as [A1 A2]. destruct (IHr (walk acc l)) as [B1 B2]. split.
+    + eapply incl_tran; eauto.
+    + apply incl_app; [eapply incl_tran; eauto | exact B2].
+Qed.
+
+(* T5.src, data part: the parameters of the generated function are _v0 .. _v(n-1), one per
+   symbol of var_syms and in the same order, without repetition, and every variable the
+   source mentions is one of them *)
+Lemma compile_params : forall T rho e c, compile T rho e = Some c ->
+  c_params c = names (List.length (c_syms c)) /\ NoDup (c_params c) /\ NoDup (c_syms c) /\
+  c_syms c <> [] /\ incl (ir_vars (c_ir c)) (c_params c) /\
+  ast_to_ir T rho e [] = Some (c_ir c, c_syms c) /\
+  exists src, ir_to_source T (c_ir c) = Some src /\
+              c_source c = "def _expr(" +s join ", " (c_params c) +s "): return " +s src.
+Proof.
+  intros T rho e c H. unfold compile in H.
+  destruct (ast_to_ir T rho e []) as [[i vr] |] eqn:A; [| discriminate].
+  destruct vr as [| s0 vr0] eqn:V; [discriminate |].
+  destruct (ir_to_source T i) as [src |] eqn:S; [| discriminate].
+  injection H as <-. cbn [c_params c_syms c_ir c_source].
+  destruct (ast_to_ir_grows _ _ _ _ _ _ A) as [_ [ND W]]. unfold collect_params.
+  change (walk [] i = names (List.length (s0 :: vr0))) in W. rewrite W.
+  split; [reflexivity |]. split; [apply NoDup_names |]. split; [apply ND; constructor |].
+  split; [discriminate |]. split; [rewrite <- W; apply walk_incl |]. split; [reflexivity |].
+  exists src. split; [exact S | reflexivity].
+Qed.
+
+Lemma bind_params_names : forall vs s k,
+  bind_params (map vname (seq s (List.length vs))) vs (vname (s + k)) = nth_error vs k.
+Proof.
+  induction vs as [| v vs IH]; intros s k; cbn.
+  - destruct k; reflexivity.
+  - destruct k as [| k].
+    + rewrite Nat.add_0_r, String.eqb_refl. reflexivity.
+    + destruct (String.eqb (vname (s + S k)) (vname s)) eqn:E.
+      * apply String.eqb_eq, vname_inj in E. lia.
+      * replace (s + S k)%nat with (S s + k)%nat by lia. apply IH.
+Qed.
+
+Lemma fetch_args_nth : forall rho syms vs, fetch_args rho syms = Some vs ->
+  List.length vs = List.length syms /\
+  forall k s, nth_error syms k = Some s -> exists v, rho s = Some v /\ nth_error vs k = Some v.
+Proof.
+  intros rho syms. induction syms as [| s r IH]; intros vs H; cbn in H.
+  - injection H as <-. split; [reflexivity |]. intros [| k] s H; discriminate.
+  - destruct (rho s) as [v |] eqn:R; [| discriminate].
+    destruct (fetch_args rho r) as [vs' |] eqn:F; [| discriminate]. injection H as <-.
+    destruct (IH _ eq_refl) as [L N]. split; [cbn; rewrite L; reflexivity |].
+    intros [| k] s' H; cbn in H.
+    + injection H as <-. exists v. split; [exact R | reflexivity].
+    + apply N. exact H.
+Qed.
+
+(* ------------------------------------------------------------------ what the regenerated tables must say *)
+Definition pair_in (l : list (string * string)) (p : string * string) : bool :=
+  existsb (fun q => String.eqb (fst p) (fst q) && String.eqb (snd p) (snd q)) l.
+
+Definition bin_pairs := [("+", "+"); ("-", "-"); ("*", "*"); ("%", "/"); ("^", "**")].
+Definition cmp_pairs := [("=", "=="); (">", ">"); ("<", "<")].
+Definition red_pairs := [("+", "np.add.reduce"); ("*", "np.multiply.reduce"); ("|", "np.maximum.reduce"); ("&", "np.minimum.reduce")].
+Definition scan_pairs := [("+", "np.add.accumulate"); ("*", "np.multiply.accumulate")].
+
+(* every entry of the op->text dictionaries is one whose Python meaning is the verb's *)
+Definition tables_ok (T : tables) : bool :=
+  forallb (pair_in bin_pairs) (t_bin T) && forallb (pair_in cmp_pairs) (t_cmp T) &&
+  forallb (pair_in red_pairs) (t_red T) && forallb (pair_in scan_pairs) (t_scan T).
+
+Lemma assoc_in : forall (l : list (string * string)) s v, assoc s l = Some v -> In (s, v) l.
+Proof.
+  induction l as [| [k x] r IH]; intros s v H; cbn in H; [discriminate |].
+  destruct (String.eqb s k) eqn:E.
+  - injection H as <-. apply String.eqb_eq in E. subst. left. reflexivity.
+  - right. apply IH. exact H.
+Qed.
+
+Lemma pair_in_In : forall l p, pair_in l p = true -> In p l.
+Proof.
+  intros l [a b] H. unfold pair_in in H. apply existsb_exists in H. destruct H as [[c d] [Hi He]].
+  cbn in He. apply andb_true_iff in He. destruct He as [E1 E2].
+  apply String.eqb_eq in E1. apply String.eqb_eq in E2. subst. exact Hi.
+Qed.
+
+Lemma table_entry : forall wl l op o, forallb (pair_in wl) l = true -> assoc op l = Some o -> In (op, o) wl.
+Proof.
+  intros wl l op o F A. apply assoc_in in A. rewrite forallb_forall in F. apply pair_in_In. apply F. exact A.
+Qed.
+
+(* ------------------------------------------------------------------ values *)
+Definition wfv (v : val) : Prop :=
+  match v with VS _ _ => True | V1 l => l <> [] | V2 _ => True | _ => False end.
+
+Lemma norm_idem : forall v, norm (norm v) = norm v.
+Proof. destruct v; reflexivity. Qed.
+
+Lemma np_lift2_norm : forall f a b, np_lift2 f a b = np_lift2 f (norm a) (norm b).
+Proof. intros f a b. destruct a, b; reflexivity. Qed.
+
+Lemma np_lift2_veq : forall f a a' b b', veq a a' -> veq b b' -> np_lift2 f a b = np_lift2 f a' b'.
+Proof.
+  intros f a a' b b' Ha Hb. unfold veq in *.
+  rewrite (np_lift2_norm f a b), (np_lift2_norm f a' b'), Ha, Hb. reflexivity.
+Qed.
+
+Lemma np_lift1_veq : forall f a a', veq a a' -> np_lift1 f a = np_lift1 f a'.
+Proof. intros f a a' H. unfold veq in H. destruct a, a'; cbn in H; try discriminate; try (injection H as <-); reflexivity. Qed.
+
+Lemma isnum_veq : forall a a', veq a a' -> isnum a = isnum a'.
+Proof. intros a a' H. unfold veq in H. destruct a, a'; cbn in H; try discriminate; reflexivity. Qed.
+
+Lemma wfv_isnum : forall v, wfv v -> isnum v = true.
+Proof. destruct v; cbn; tauto. Qed.
+
+Lemma veq_refl : forall v, veq v v.
+Proof. reflexivity. Qed.
+
+Lemma map2_nonempty : forall (f : num -> num -> num) a b,
+  a <> [] -> List.length a = List.length b -> map2 f a b <> [].
+Proof. intros f [| x a] [| y b] H L; cbn in *; try congruence; discriminate. Qed.
+
+Lemma map_nonempty : forall (A B : Type) (f : A -> B) l, l <> [] -> map f l <> [].
+Proof. intros A B f [| x l] H; cbn; [congruence | discriminate]. Qed.
+
+Lemma bc1_nonempty : forall f a b r, a <> [] -> b <> [] -> bc1 f a b = Ok r -> r <> [].
+Proof.
+  intros f a b r Ha Hb H. unfold bc1 in H.
+  destruct (Nat.eqb (List.length a) (List.length b)) eqn:E.
+  - injection H as <-. apply map2_nonempty; [exact Ha | apply Nat.eqb_eq; exact E].
+  - destruct a as [| x [| x2 a]]; [congruence | |].
+    + injection H as <-. apply map_nonempty. exact Hb.
+    + destruct b as [| y [| y2 b]]; [congruence | | discriminate].
+      injection H as <-. discriminate.
+Qed.
+
+Lemma np_lift2_wfv : forall f a b v, wfv a -> wfv b -> np_lift2 f a b = Ok v -> wfv v.
+Proof.
+  intros f a b v Ha Hb H.
+  destruct a as [na x | l | r | | | | |], b as [nb y | m | q | | | | |]; cbn in *; try tauto; try discriminate.
+  - injection H as <-. exact I.
+  - injection H as <-. apply map_nonempty. exact Hb.
+  - destruct (rect q); [injection H as <-; exact I | discriminate].
+  - injection H as <-. apply map_nonempty. exact Ha.
+  - destruct (bc1 f l m) as [r | |] eqn:B; cbn in H; try discriminate. injection H as <-.
+    exact (bc1_nonempty f l m r Ha Hb B).
+  - destruct (rect q && Nat.eqb (List.length l) (ncols q)); [injection H as <-; exact I | discriminate].
+  - destruct (rect r); [injection H as <-; exact I | discriminate].
+  - destruct (rect r && Nat.eqb (List.length m) (ncols r)); [injection H as <-; exact I | discriminate].
+  - destruct (rect r && rect q && Nat.eqb (List.length r) (List.length q) && Nat.eqb (ncols r) (ncols q));
+      [injection H as <-; exact I | discriminate].
+Qed.
+
+Lemma np_lift1_wfv : forall f a v, wfv a -> np_lift1 f a = Ok v -> wfv v.
+Proof.
+  intros f a v Ha H. destruct a as [na x | l | r | | | | |]; cbn in *; try tauto; try discriminate.
+  - injection H as <-. exact I.
+  - injection H as <-. apply map_nonempty. exact Ha.
+  - destruct (rect r); [injection H as <-; exact I | discriminate].
+Qed.
+
+(* the shared shape of an operator lemma: compiled result v from operands a b, interpreter operands a' b' *)
+Definition agrees (r : res val) (v : val) : Prop := exists v', r = Ok v' /\ veq v v'.
+
+Lemma py_arith_kg : forall f a b a' b' v,
+  wfv a -> wfv b -> veq a a' -> veq b b' -> py_arith f a b = Ok v ->
+  agrees (kg_arith f a' b') v /\ wfv v /\ (pyscalar a && pyscalar b = true -> pyscalar v = true).
+Proof.
+  intros f a b a' b' v Wa Wb Ea Eb H.
+  assert (Na : isnum a' = true) by (rewrite <- (isnum_veq _ _ Ea); apply wfv_isnum; exact Wa).
+  assert (Nb : isnum b' = true) by (rewrite <- (isnum_veq _ _ Eb); apply wfv_isnum; exact Wb).
+  unfold kg_arith. rewrite Na, Nb. cbn [andb].
+  rewrite <- (np_lift2_veq f a a' b b' Ea Eb).
+  unfold py_arith in H.
+  destruct a as [[|] x | l | r | | | | |]; try (cbn in Wa; tauto);
+  destruct b as [[|] y | m | q | | | | |]; try (cbn in Wb; tauto);
+  try (split; [exists v; split; [exact H | reflexivity] | split; [exact (np_lift2_wfv f _ _ v Wa Wb H) | cbn; discriminate]]).
+  injection H as <-. split; [| split; [exact I | reflexivity]].
+  exists (VS true (f x y)). split; reflexivity.
+Qed.
+
+Lemma veq_scalar_inv : forall n x a', veq (VS n x) a' -> exists n', a' = VS n' x.
+Proof. intros n x a' H. unfold veq in H. destruct a'; cbn in H; try discriminate. injection H as <-. eexists. reflexivity. Qed.
+
+Lemma veq_nonscalar : forall a a', veq a a' -> isscalar a = false -> a' = a.
+Proof. intros a a' H S. unfold veq in H. destruct a, a'; cbn in *; try discriminate; congruence. Qed.
+
+Lemma isscalar_veq : forall a a', veq a a' -> isscalar a = isscalar a'.
+Proof. intros a a' H. unfold veq in H. destruct a, a'; cbn in *; try discriminate; reflexivity. Qed.
+
+(* division: :undefined in the interpreter is ZeroDivisionError in the emitted code only when both
+   operands are Python scalars; `und` says that is the case whenever the interpreter answers :undefined *)
+Lemma py_div_kg : forall a b a' b' v,
+  wfv a -> wfv b -> veq a a' -> veq b b' ->
+  (is_undef (kg_dyad "%" a' b') = true -> pyscalar a && pyscalar b = true) ->
+  py_binop "/" a b = Ok v ->
+  agrees (kg_dyad "%" a' b') v /\ wfv v /\ (pyscalar a && pyscalar b = true -> pyscalar v = true).
+Proof.
+  intros a b a' b' v Wa Wb Ea Eb U H.
+  change (py_binop "/" a b) with
+    (match a, b with
+     | VS false x, VS false y => if is_zero y then Err else Ok (VS false (n_div x y))
+     | _, _ => np_lift2 n_div a b end) in H.
+  change (kg_dyad "%" a' b') with
+    (match b' with
+     | VS _ y => if is_zero y && negb (isarr a') then Ok VUndef else kg_arith n_div a' b'
+     | _ => kg_arith n_div a' b' end) in *.
+  destruct (isscalar a && isscalar b) eqn:SC.
+  - apply andb_true_iff in SC. destruct SC as [Sa Sb].
+    destruct a as [na x | | | | | | |]; try discriminate. destruct b as [nb y | | | | | | |]; try discriminate.
+    destruct (veq_scalar_inv _ _ _ Ea) as [na' ->]. destruct (veq_scalar_inv _ _ _ Eb) as [nb' ->].
+    cbn [isarr negb] in *. rewrite andb_true_r in *.
+    destruct (is_zero y) eqn:Z.
+    + specialize (U eq_refl). apply andb_true_iff in U. destruct U as [U1 U2].
+      destruct na; [discriminate |]. destruct nb; [discriminate |]. discriminate.
+    + assert (K : kg_arith n_div (VS na' x) (VS nb' y) = Ok (VS true (n_div x y))) by reflexivity.
+      rewrite K. destruct na, nb; cbn in H; try rewrite Z in H; injection H as <-;
+        (split; [eexists; split; reflexivity | split; [exact I | cbn; try discriminate; reflexivity]]).
+  - assert (H' : np_lift2 n_div a b = Ok v).
+    { destruct a as [[|] x | | | | | | |], b as [[|] y | | | | | | |]; try exact H; cbn in SC; discriminate. }
+    assert (G : agrees (kg_arith n_div a' b') v /\ wfv v).
+    { assert (Na : isnum a' = true) by (rewrite <- (isnum_veq _ _ Ea); apply wfv_isnum; exact Wa).
+      assert (Nb : isnum b' = true) by (rewrite <- (isnum_veq _ _ Eb); apply wfv_isnum; exact Wb).
+      unfold kg_arith. rewrite Na, Nb. cbn [andb]. rewrite <- (np_lift2_veq n_div a a' b b' Ea Eb).
+      split; [exists v; split; [exact H' | reflexivity] | exact (np_lift2_wfv _ _ _ _ Wa Wb H')]. }
+    destruct G as [G1 G2].
+    assert (SC' : isscalar a' && isscalar b' = false)
+      by (rewrite <- (isscalar_veq _ _ Ea), <- (isscalar_veq _ _ Eb); exact SC).
+    split; [| split; [exact G2 |]].
+    + destruct b' as [? y' | | | | | | |]; try exact G1.
+      destruct a' as [? ? | | | | | | |]; try discriminate SC'; cbn [isarr negb]; rewrite ?andb_false_r; try exact G1;
+        unfold agrees, kg_arith in G1; cbn in G1; destruct G1 as [? [G1 _]]; discriminate G1.
+    + intro P. apply andb_true_iff in P. destruct P as [P1 P2].
+      destruct a as [[|] ? | | | | | | |]; try discriminate. destruct b as [[|] ? | | | | | | |]; discriminate.
+Qed.
+
+Lemma py_eq_kg : forall a b a' b' v,
+  wfv a -> wfv b -> veq a a' -> veq b b' -> py_arith n_eq a b = Ok v ->
+  agrees (kg_dyad "=" a' b') v /\ wfv v /\ (pyscalar a && pyscalar b = true -> pyscalar v = true).
+Proof.
+  intros a b a' b' v Wa Wb Ea Eb H.
+  destruct (py_arith_kg n_eq a b a' b' v Wa Wb Ea Eb H) as [G1 [G2 G3]].
+  split; [| split; assumption].
+  assert (Na : isnum a' = true) by (rewrite <- (isnum_veq _ _ Ea); apply wfv_isnum; exact Wa).
+  assert (Nb : isnum b' = true) by (rewrite <- (isnum_veq _ _ Eb); apply wfv_isnum; exact Wb).
+  change (kg_dyad "=" a' b') with (if isnum a' && isnum b' then np_lift2 n_eq a' b' else Unm).
+  unfold kg_arith in G1. rewrite Na, Nb in *. exact G1.
+Qed.
+
+Lemma py_neg_kg : forall a a' v, wfv a -> veq a a' -> py_neg a = Ok v ->
+  agrees (kg_negate a') v /\ wfv v /\ (pyscalar a = true -> pyscalar v = true).
+Proof.
+  intros a a' v Wa Ea H.
+  destruct a as [[|] x | l | r | | | | |]; try (cbn in Wa; tauto).
+  - destruct (veq_scalar_inv _ _ _ Ea) as [n' ->]. cbn in H. injection H as <-.
+    split; [eexists; split; reflexivity | split; [exact I | discriminate]].
+  - destruct (veq_scalar_inv _ _ _ Ea) as [n' ->]. cbn in H. injection H as <-.
+    split; [eexists; split; reflexivity | split; [exact I | reflexivity]].
+  - rewrite (veq_nonscalar _ _ Ea eq_refl). cbn in H. injection H as <-.
+    split; [eexists; split; reflexivity | split; [cbn; apply map_nonempty; exact Wa | discriminate]].
+  - rewrite (veq_nonscalar _ _ Ea eq_refl). cbn in *. destruct (rect r); [| discriminate]. injection H as <-.
+    split; [eexists; split; reflexivity | split; [exact I | discriminate]].
+Qed.
+
+Lemma fold_rows_length : forall (f : num -> num -> num) rs r,
+  forallb (fun q => Nat.eqb (List.length q) (List.length r)) rs = true ->
+  List.length (fold_left (map2 f) rs r) = List.length r.
+Proof.
+  intros f rs. induction rs as [| q rs IH]; intros r H; cbn; [reflexivity |].
+  cbn in H. apply andb_true_iff in H. destruct H as [H1 H2]. apply Nat.eqb_eq in H1.
+  assert (L : List.length (map2 f r q) = List.length r).
+  { clear - H1. revert q H1. induction r as [| x r IHr]; intros [| y q] H; cbn in *; try congruence; try discriminate.
+    f_equal. apply IHr. congruence. }
+  rewrite IH; [exact L |]. rewrite L. exact H2.
+Qed.
+
+Lemma fold_rows_nonempty : forall f r, rect r = true -> fold_rows f r <> [].
+Proof.
+  intros f [| r0 rs] H; cbn in H; [discriminate |]. apply andb_true_iff in H. destruct H as [H1 H2].
+  cbn. intro E. assert (L := fold_rows_length f rs r0 H2). rewrite E in L. cbn in L.
+  destruct r0; [discriminate | discriminate].
+Qed.
+
+Lemma reduce_kg : forall op f ident a a' v,
+  red_fn op = Some f -> wfv a -> veq a a' -> ufunc_reduce f ident a = Ok v ->
+  agrees (kg_over op a') v /\ wfv v.
+Proof.
+  intros op f ident a a' v R Wa Ea H. unfold kg_over. rewrite R.
+  destruct a as [n x | l | r | | | | |]; try (cbn in Wa; tauto).
+  - destruct (veq_scalar_inv _ _ _ Ea) as [n' ->]. cbn in H. injection H as <-.
+    split; [eexists; split; reflexivity | exact I].
+  - rewrite (veq_nonscalar _ _ Ea eq_refl). cbn in Wa. cbn in H.
+    destruct l as [| x [| y l]]; [congruence | |].
+    + cbn in H. injection H as <-. split; [eexists; split; reflexivity | exact I].
+    + cbn in H. injection H as <-. split; [eexists; split; reflexivity | exact I].
+  - rewrite (veq_nonscalar _ _ Ea eq_refl). cbn in H. destruct (rect r) eqn:RC; [| discriminate].
+    injection H as <-. split.
+    + destruct r as [| r0 [| r1 rs]]; eexists; split; reflexivity.
+    + cbn. apply fold_rows_nonempty. exact RC.
+Qed.
+
+Lemma scan1_nonempty : forall f l, l <> [] -> scan1 f l <> [].
+Proof. intros f [| x l] H; cbn; [congruence | discriminate]. Qed.
+
+Lemma scan_kg : forall op f a a' v,
+  red_fn op = Some f -> wfv a -> veq a a' -> ufunc_accumulate f a = Ok v ->
+  agrees (kg_scan op a') v /\ wfv v.
+Proof.
+  intros op f a a' v R Wa Ea H. unfold kg_scan. rewrite R.
+  destruct a as [n x | l | r | | | | |]; try (cbn in Wa; tauto); try discriminate.
+  - rewrite (veq_nonscalar _ _ Ea eq_refl). cbn in Wa. cbn in H. injection H as <-.
+    destruct l as [| x l]; [congruence |].
+    split; [eexists; split; reflexivity | cbn; discriminate].
+  - rewrite (veq_nonscalar _ _ Ea eq_refl). cbn in H. destruct (rect r) eqn:RC; [| discriminate].
+    injection H as <-. split; [eexists; split; reflexivity | exact I].
+Qed.
+
+(* ------------------------------------------------------------------ the emitted code against the tree walker *)
+Definition agree (args : string -> option val) (rho : env) (final : list string) : Prop :=
+  forall k s, nth_error final k = Some s ->
+    exists v, rho s = Some v /\ args (vname k) = Some v /\ admit_call v = true.
+
+Lemma bind_ok : forall A B (r : res A) (f : A -> res B) v, bind r f = Ok v -> exists a, r = Ok a /\ f a = Ok v.
+Proof. intros A B [a | |] f v H; cbn in H; try discriminate. exists a. split; [reflexivity | exact H]. Qed.
+
+Lemma arg_wfv : forall v, numeric v = true -> admit_call v = true -> wfv v.
+Proof.
+  destruct v as [[|] x | l | r | | | | |]; cbn; intros N A; try discriminate; try exact I.
+  destruct l; [discriminate | discriminate].
+Qed.
+
+Lemma py_mul_arith : forall a b, wfv a -> wfv b -> py_binop "*" a b = py_arith n_mul a b.
+Proof. intros a b Wa Wb. destruct a as [[|] [x|x] | | | | | | |], b as [[|] [y|y] | | | | | | |]; cbn in *; try tauto; reflexivity. Qed.
+
+Lemma agrees_interp_dyad : forall rho op ea eb a' b' v,
+  interp rho ea = Ok a' -> interp rho eb = Ok b' -> agrees (kg_dyad op a' b') v ->
+  agrees (interp rho (EDyad op ea eb)) v.
+Proof. intros rho op ea eb a' b' v Ha Hb H. cbn [interp]. rewrite Hb. cbn [bind]. rewrite Ha. exact H. Qed.
+
+Lemma eval_ir_interp : forall T, tables_ok T = true -> forall rho0 rho args final e vr i vr',
+  ast_to_ir T rho0 e vr = Some (i, vr') -> prefix vr' final -> agree args rho final -> d5 rho e = true ->
+  forall v, eval_ir T args i = Ok v ->
+  agrees (interp rho e) v /\ wfv v /\ (pypure rho e = true -> pyscalar v = true).
+Proof.
+  intros T TOK rho0 rho args final. unfold tables_ok in TOK.
+  apply andb_true_iff in TOK. destruct TOK as [TOK Tscan].
+  apply andb_true_iff in TOK. destruct TOK as [TOK Tred].
+  apply andb_true_iff in TOK. destruct TOK as [Tbin Tcmp].
+  induction e as [z | f r | s | op ea IHa eb IHb | op ea IHa | op adv ea IHa |];
+    intros vr i vr' A P AG D v E; cbn [ast_to_ir] in A.
+  - injection A as <- <-. cbn in E. injection E as <-.
+    split; [eexists; split; reflexivity | split; [exact I | reflexivity]].
+  - injection A as <- <-. cbn in E. injection E as <-.
+    split; [eexists; split; reflexivity | split; [exact I | reflexivity]].
+  - destruct (rho0 s) as [v0 |]; [| discriminate]. destruct (admit_compile T v0); [| discriminate].
+    assert (G : exists k, i = IVar (vname k) /\ nth_error final k = Some s).
+    { destruct (find_idx s vr) as [k |] eqn:F; injection A as <- <-.
+      - exists k. split; [reflexivity |]. eapply prefix_nth; [exact P | apply find_idx_some; exact F].
+      - exists (List.length vr). split; [reflexivity |]. eapply prefix_nth; [exact P |].
+        rewrite nth_error_app2, Nat.sub_diag; [reflexivity | lia]. }
+    destruct G as [k [-> N]]. destruct (AG _ _ N) as [v1 [R [AR AC]]].
+    cbn in E. rewrite AR in E. injection E as <-. cbn in D. rewrite R in D.
+    split; [exists v1; split; [cbn; rewrite R; reflexivity | reflexivity] |].
+    split; [apply arg_wfv; assumption |]. cbn. rewrite R. tauto.
+  - destruct (ast_to_ir T rho0 ea vr) as [[l vr1] |] eqn:A1; [| discriminate].
+    destruct (ast_to_ir T rho0 eb vr1) as [[r vr2] |] eqn:A2; [| discriminate].
+    destruct (ast_to_ir_grows _ _ _ _ _ _ A2) as [P2 _].
+    cbn [d5] in D. apply andb_true_iff in D. destruct D as [D Dund].
+    apply andb_true_iff in D. destruct D as [D Dpow].
+    apply andb_true_iff in D. destruct D as [Da Db].
+    assert (Pfin1 : prefix vr1 final) by (destruct (mem op (arith_ops T)); [injection A as _ <- | destruct (mem op (cmp_ops T)); [injection A as _ <- | discriminate]]; eapply prefix_trans; eauto).
+    assert (Pfin2 : prefix vr2 final) by (destruct (mem op (arith_ops T)); [injection A as _ <- | destruct (mem op (cmp_ops T)); [injection A as _ <- | discriminate]]; exact P).
+    assert (PP : pypure rho (EDyad op ea eb) = pypure rho ea && pypure rho eb) by reflexivity.
+    destruct (mem op (arith_ops T)).
+    + injection A as <- _. cbn [eval_ir] in E.
+      apply bind_ok in E. destruct E as [a [E1 E]]. apply bind_ok in E. destruct E as [b [E2 E]].
+      destruct (assoc op (t_bin T)) as [o |] eqn:AS; [| discriminate].
+      destruct (IHa _ _ _ A1 Pfin1 AG Da _ E1) as [[a' [Ia Ea]] [Wa Pa]].
+      destruct (IHb _ _ _ A2 Pfin2 AG Db _ E2) as [[b' [Ib Eb]] [Wb Pb]].
+      assert (IN := table_entry _ _ _ _ Tbin AS).
+      assert (PS : pypure rho ea && pypure rho eb = true -> pyscalar a && pyscalar b = true).
+      { intro H. apply andb_true_iff in H. destruct H as [H1 H2]. rewrite (Pa H1), (Pb H2). reflexivity. }
+      rewrite PP.
+      destruct IN as [IN | [IN | [IN | [IN | [IN | []]]]]]; injection IN as <- <-.
+      * change (py_binop "+" a b) with (py_arith n_add a b) in E.
+        destruct (py_arith_kg _ _ _ _ _ _ Wa Wb Ea Eb E) as [G1 [G2 G3]].
+        split; [eapply agrees_interp_dyad; eauto | split; [exact G2 | intro H; apply G3, PS, H]].
+      * change (py_binop "-" a b) with (py_arith n_sub a b) in E.
+        destruct (py_arith_kg _ _ _ _ _ _ Wa Wb Ea Eb E) as [G1 [G2 G3]].
+        split; [eapply agrees_interp_dyad; eauto | split; [exact G2 | intro H; apply G3, PS, H]].
+      * rewrite (py_mul_arith _ _ Wa Wb) in E.
+        destruct (py_arith_kg _ _ _ _ _ _ Wa Wb Ea Eb E) as [G1 [G2 G3]].
+        split; [eapply agrees_interp_dyad; eauto | split; [exact G2 | intro H; apply G3, PS, H]].
+      * assert (U : is_undef (kg_dyad "%" a' b') = true -> pyscalar a && pyscalar b = true).
+        { intro H. apply PS. cbn [interp] in Dund. rewrite Ib in Dund. cbn [bind] in Dund. rewrite Ia in Dund.
+          cbn [bind] in Dund. change (String.eqb "%" "%") with true in Dund. cbv iota in Dund.
+          rewrite H in Dund. exact Dund. }
+        destruct (py_div_kg _ _ _ _ _ Wa Wb Ea Eb U E) as [G1 [G2 G3]].
+        split; [eapply agrees_interp_dyad; eauto | split; [exact G2 | intro H; apply G3, PS, H]].
+      * discriminate Dpow.
+    + destruct (mem op (cmp_ops T)); [| discriminate].
+      injection A as <- _. cbn [eval_ir] in E.
+      apply bind_ok in E. destruct E as [a [E1 E]]. apply bind_ok in E. destruct E as [b [E2 E]].
+      destruct (assoc op (t_cmp T)) as [o |] eqn:AS; [| discriminate].
+      destruct (IHa _ _ _ A1 Pfin1 AG Da _ E1) as [[a' [Ia Ea]] [Wa Pa]].
+      destruct (IHb _ _ _ A2 Pfin2 AG Db _ E2) as [[b' [Ib Eb]] [Wb Pb]].
+      assert (IN := table_entry _ _ _ _ Tcmp AS).
+      assert (PS : pypure rho ea && pypure rho eb = true -> pyscalar a && pyscalar b = true).
+      { intro H. apply andb_true_iff in H. destruct H as [H1 H2]. rewrite (Pa H1), (Pb H2). reflexivity. }
+      rewrite PP.
+      destruct IN as [IN | [IN | [IN | []]]]; injection IN as <- <-.
+      * change (py_cmp "==" a b) with (py_arith n_eq a b) in E.
+        destruct (py_eq_kg _ _ _ _ _ Wa Wb Ea Eb E) as [G1 [G2 G3]].
+        split; [eapply agrees_interp_dyad; eauto | split; [exact G2 | intro H; apply G3, PS, H]].
+      * change (py_cmp ">" a b) with (py_arith n_gt a b) in E.
+        destruct (py_arith_kg _ _ _ _ _ _ Wa Wb Ea Eb E) as [G1 [G2 G3]].
+        split; [eapply agrees_interp_dyad; eauto | split; [exact G2 | intro H; apply G3, PS, H]].
+      * change (py_cmp "<" a b) with (py_arith n_lt a b) in E.
+        destruct (py_arith_kg _ _ _ _ _ _ Wa Wb Ea Eb E) as [G1 [G2 G3]].
+        split; [eapply agrees_interp_dyad; eauto | split; [exact G2 | intro H; apply G3, PS, H]].
+  - destruct (String.eqb op "-") eqn:OP; [| discriminate].
+    destruct (ast_to_ir T rho0 ea vr) as [[c vr1] |] eqn:A1; [| discriminate].
+    injection A as <- <-. cbn [eval_ir] in E. apply bind_ok in E. destruct E as [a [E1 E]].
+    cbn [d5] in D.
+    destruct (IHa _ _ _ A1 P AG D _ E1) as [[a' [Ia Ea]] [Wa Pa]].
+    destruct (py_neg_kg _ _ _ Wa Ea E) as [G1 [G2 G3]].
+    split; [cbn [interp]; rewrite OP, Ia; exact G1 | split; [exact G2 | intro H; apply G3, Pa, H]].
+  - destruct (mem op (redscan_ops T)); [| discriminate].
+    destruct (ast_to_ir T rho0 ea vr) as [[c vr1] |] eqn:A1; [| discriminate].
+    cbn [d5] in D.
+    destruct (String.eqb adv "/") eqn:AD.
+    + injection A as <- <-. cbn [eval_ir] in E. apply bind_ok in E. destruct E as [a [E1 E]].
+      destruct (assoc op (t_red T)) as [m |] eqn:AS; [| discriminate].
+      destruct (IHa _ _ _ A1 P AG D _ E1) as [[a' [Ia Ea]] [Wa Pa]].
+      assert (IN := table_entry _ _ _ _ Tred AS).
+      assert (G : agrees (kg_over op a') v /\ wfv v).
+      { destruct IN as [IN | [IN | [IN | [IN | []]]]]; injection IN as <- <-.
+        - change (py_call "np.add.reduce" a) with (ufunc_reduce n_add (Some (NR (z2f 0))) a) in E.
+          exact (reduce_kg "+" _ _ _ _ _ eq_refl Wa Ea E).
+        - change (py_call "np.multiply.reduce" a) with (ufunc_reduce n_mul (Some (NR (z2f 1))) a) in E.
+          exact (reduce_kg "*" _ _ _ _ _ eq_refl Wa Ea E).
+        - change (py_call "np.maximum.reduce" a) with (ufunc_reduce n_max None a) in E.
+          exact (reduce_kg "|" _ _ _ _ _ eq_refl Wa Ea E).
+        - change (py_call "np.minimum.reduce" a) with (ufunc_reduce n_min None a) in E.
+          exact (reduce_kg "&" _ _ _ _ _ eq_refl Wa Ea E). }
+      destruct G as [G1 G2].
+      split; [cbn [interp]; rewrite Ia; cbn [bind]; rewrite AD; exact G1 | split; [exact G2 | discriminate]].
+    + destruct (String.eqb adv "\") eqn:AD2; [| discriminate].
+      injection A as <- <-. cbn [eval_ir] in E. apply bind_ok in E. destruct E as [a [E1 E]].
+      destruct (assoc op (t_scan T)) as [m |] eqn:AS; [| discriminate].
+      destruct (IHa _ _ _ A1 P AG D _ E1) as [[a' [Ia Ea]] [Wa Pa]].
+      assert (IN := table_entry _ _ _ _ Tscan AS).
+      assert (G : agrees (kg_scan op a') v /\ wfv v).
+      { destruct IN as [IN | [IN | []]]; injection IN as <- <-.
+        - change (py_call "np.add.accumulate" a) with (ufunc_accumulate n_add a) in E.
+          exact (scan_kg "+" _ _ _ _ eq_refl Wa Ea E).
+        - change (py_call "np.multiply.accumulate" a) with (ufunc_accumulate n_mul a) in E.
+          exact (scan_kg "*" _ _ _ _ eq_refl Wa Ea E). }
+      destruct G as [G1 G2].
+      split; [cbn [interp]; rewrite Ia; cbn [bind]; rewrite AD, AD2; exact G1 | split; [exact G2 | discriminate]].
+  - discriminate.
+Qed.
+
+(* ------------------------------------------------------------------ fn( *args ), the site, histories *)
+Lemma run_compiled_interp : forall T, tables_ok T = true -> forall rho0 rho e c,
+  compile T rho0 e = Some c -> d5 rho e = true ->
+  forall v, run_compiled T true c rho = Ok v -> agrees (interp rho e) v.
+Proof.
+  intros T TOK rho0 rho e c C D v R.
+  destruct (compile_params _ _ _ _ C) as [PN [_ [_ [_ [_ [A _]]]]]].
+  unfold run_compiled in R.
+  destruct (fetch_args rho (c_syms c)) as [vs |] eqn:F; [| discriminate].
+  destruct (forallb admit_call vs) eqn:G; cbn [andb negb] in R; [| discriminate].
+  destruct (Nat.eqb (List.length vs) (List.length (c_params c))) eqn:L; cbn [negb] in R; [| discriminate].
+  destruct (fetch_args_nth _ _ _ F) as [LV NV].
+  assert (AG : agree (bind_params (c_params c) vs) rho (c_syms c)).
+  { intros k s N. destruct (NV _ _ N) as [v1 [R1 N1]]. exists v1. split; [exact R1 |]. split.
+    - rewrite PN. unfold names. rewrite <- LV. rewrite <- N1. exact (bind_params_names vs 0 k).
+    - rewrite forallb_forall in G. apply G. eapply nth_error_In. exact N1. }
+  destruct (eval_ir_interp T TOK rho0 rho _ (c_syms c) e [] _ _ A (prefix_refl _) AG D v R) as [H _].
+  exact H.
+Qed.
+
+Definition res_agree (s i : res val) : Prop :=
+  match s with Ok v => agrees i v | Err => i = Err | Unm => True end.
+
+Lemma res_agree_refl : forall r, res_agree r r.
+Proof. intros [v | |]; cbn; [exists v; split; reflexivity | reflexivity | exact I]. Qed.
+
+(* a memo is whatever compile_expr returned under SOME earlier bindings *)
+Definition memo_of (T : tables) (e : expr) (m : option compiled) : Prop := exists rho0, m = compile T rho0 e.
+
+Lemma site_interp : forall T, tables_ok T = true -> forall e rho m,
+  memo_of T e m -> d5 rho e = true -> res_agree (site T true m rho e) (interp rho e).
+Proof.
+  intros T TOK e rho m [rho0 ->] D. unfold site.
+  destruct (compile T rho0 e) as [c |] eqn:C; [| apply res_agree_refl].
+  destruct (run_compiled T true c rho) as [v | |] eqn:R; [| apply res_agree_refl | exact I].
+  exact (run_compiled_interp T TOK rho0 rho e c C D v R).
+Qed.
+
+Lemma history_interp : forall T, tables_ok T = true -> forall e h memo,
+  match memo with None => True | Some m => memo_of T e m end ->
+  Forall (fun rho => d5 rho e = true) h ->
+  Forall2 res_agree (run_history T true memo e h) (map (fun rho => interp rho e) h).
+Proof.
+  intros T TOK e h. induction h as [| rho h IH]; intros memo V F; cbn; [constructor |].
+  inversion F as [| ? ? D F']; subst.
+  assert (M : memo_of T e (match memo with Some m => m | None => compile T rho e end)).
+  { destruct memo as [m |]; [exact V | exists rho; reflexivity]. }
+  constructor; [apply site_interp; assumption | apply IH; assumption].
+Qed.
+
+(* T5.fallback *)
+Lemma site_fallback : forall T g c rho e, run_compiled T g c rho = Err -> site T g (Some c) rho e = interp rho e.
+Proof. intros T g c rho e H. unfold site. rewrite H. reflexivity. Qed.
+
+Lemma guard_rejects : forall T c rho vs,
+  fetch_args rho (c_syms c) = Some vs -> forallb admit_call vs = false -> run_compiled T true c rho = Err.
+Proof. intros T c rho vs F G. unfold run_compiled. rewrite F, G. reflexivity. Qed.
+
+(* ------------------------------------------------------------------ the statement without the finding classes *)
+Fixpoint dom (rho : env) (e : expr) : bool :=
+  match e with
+  | ELitI _ | ELitR _ _ => true
+  | ESym s => match rho s with Some v => numeric v | None => false end
+  | EDyad _ a b => dom rho a && dom rho b
+  | EMonad _ a => dom rho a
+  | EAdv _ _ a => dom rho a
+  | EOther => false
+  end.
+
+Definition full_statement (T : tables) (g : bool) : Prop :=
+  forall e rho0 rho c, compile T rho0 e = Some c -> dom rho e = true ->
+  forall v, run_compiled T g c rho = Ok v -> agrees (interp rho e) v.
+
+Lemma d5_dom : forall rho e, d5 rho e = true -> dom rho e = true.
+Proof.
+  intros rho e. induction e as [z | f r | s | op a IHa b IHb | op a IHa | op adv a IHa |]; cbn; intro H; try exact H; auto.
+  repeat (apply andb_true_iff in H; destruct H as [H ?]). rewrite IHa, IHb; auto.
+Qed.
+
+Definition env1 (s : string) (v : val) : env := fun n => if String.eqb n s then Some v else None.
+Definition env2 (s : string) (v : val) (t : string) (w : val) : env :=
+  fun n => if String.eqb n s then Some v else if String.eqb n t then Some w else None.
+
+(* the pinned tree's scan table *)
+Definition with_cumsum (T : tables) : tables :=
+  {| arith_ops := arith_ops T; cmp_ops := cmp_ops T; redscan_ops := redscan_ops T;
+     t_bin := t_bin T; t_cmp := t_cmp T; t_red := t_red T;
+     t_scan := [("+", "np.cumsum"); ("*", "np.cumprod")]; adm_obj := adm_obj T;
+     f_bin := f_bin T; f_cmp := f_cmp T; f_neg := f_neg T; f_red := f_red T; f_scan := f_scan T |}.
+
+Lemma refute : forall T g e rho0 rho c v r,
+  compile T rho0 e = Some c -> dom rho e = true -> run_compiled T g c rho = Ok v -> interp rho e = r ->
+  (forall v', r = Ok v' -> norm v <> norm v') -> ~ full_statement T g.
+Proof.
+  intros T g e rho0 rho c v r C D R I N F.
+  destruct (F e rho0 rho c C D v R) as [v' [I' E]]. rewrite I in I'. exact (N v' I' E).
 Qed.
